@@ -5,7 +5,7 @@ CONFIG = dict(
     namespaces=["MahfModel.Props.C08"],
     shrink_lists=[],
     shrink=False,
-    level="proof, partial",
+    level="proof",
     rule=("MODEL-VS-CODE cases (K, `agree` carries information): children — child seeds = the parent's successive words as predicted by "
           "the model from the observed parent stream, equal seeds give equal first 64 words, a child's stream equals the stream of a "
           "generator constructed directly from that word, parent position afterwards; exp — the generator seed observed inside every "
